@@ -1,5 +1,8 @@
 import TabulaModel.Util
 import TabulaModel.Model.Bounds
+import TabulaModel.Model.BoundsCore
+import TabulaModel.Model.BoundsData
+import TabulaModel.Model.BoundsOffice
 namespace Tabula.C02H
 open Tabula Tabula.Bounds
 
@@ -24,7 +27,435 @@ def parseNode (s : String) : Option (Nat × Node) :=
     | _ => none
   | _ => none
 
+/-! ### stage 1: Model/BoundsCore.lean -/
+section Core
+open Tabula.BoundsCore
+
+def readNum : List Char → Nat → Nat × List Char
+  | [], acc => (acc, [])
+  | c :: cs, acc => if c.isDigit then readNum cs (acc * 10 + (c.toNat - 48)) else (acc, cs)
+
+/-- prefix code of a page-tree value: `r<n>.` reference, `p` page, `o` other, `k<pv>` a /Pages
+node with that /Kids value, `a<pv>…e` an array -/
+def parsePV : Nat → List Char → Option (PV × List Char)
+  | 0, _ => none
+  | _ + 1, [] => none
+  | f + 1, c :: cs =>
+    if c = 'r' then let (n, rest) := readNum cs 0; some (.ref n, rest)
+    else if c = 'p' then some (.page, cs)
+    else if c = 'o' then some (.other, cs)
+    else if c = 'k' then (parsePV f cs).map (fun (v, r) => (.pages v, r))
+    else if c = 'a' then
+      (parsePVs f cs []).map (fun (vs, r) => (.arr vs, r))
+    else none
+where parsePVs : Nat → List Char → List PV → Option (List PV × List Char)
+  | 0, _, _ => none
+  | _ + 1, [], _ => none
+  | f + 1, c :: cs, acc =>
+    if c = 'e' then some (acc.reverse, cs)
+    else match parsePV f (c :: cs) with
+      | none => none
+      | some (v, r) => parsePVs f r (v :: acc)
+
+def pvOf (s : String) : Option PV :=
+  match parsePV (2 * s.length + 2) s.toList with
+  | some (v, []) => some v
+  | _ => none
+
+def pnode (s : String) : Option (Nat × PV) :=
+  match s.splitOn "=" with
+  | [n, v] => do pure ((← n.toNat?), (← pvOf v))
+  | _ => none
+
+/-- same prefix code for `ResolveDeep` values: `r<n>.`, `l<tag>.` leaf, `a…e` -/
+def parseRV : Nat → List Char → Option (RV × List Char)
+  | 0, _ => none
+  | _ + 1, [] => none
+  | f + 1, c :: cs =>
+    if c = 'r' then let (n, rest) := readNum cs 0; some (.ref n, rest)
+    else if c = 'l' then let (n, rest) := readNum cs 0; some (.leaf n, rest)
+    else if c = 'a' then (parseRVs f cs []).map (fun (vs, r) => (.arr vs, r))
+    else none
+where parseRVs : Nat → List Char → List RV → Option (List RV × List Char)
+  | 0, _, _ => none
+  | _ + 1, [], _ => none
+  | f + 1, c :: cs, acc =>
+    if c = 'e' then some (acc.reverse, cs)
+    else match parseRV f (c :: cs) with
+      | none => none
+      | some (v, r) => parseRVs f r (v :: acc)
+
+def rvOf (s : String) : Option RV :=
+  match parseRV (2 * s.length + 2) s.toList with
+  | some (v, []) => some v
+  | _ => none
+
+def rnode (s : String) : Option (Nat × RV) :=
+  match s.splitOn "=" with
+  | [n, v] => do pure ((← n.toNat?), (← rvOf v))
+  | _ => none
+
+mutual
+def showRV : RV → String
+  | .ref n => s!"r{n}."
+  | .leaf t => s!"l{t}."
+  | .arr items => "a" ++ showRVs items ++ "e"
+def showRVs : List RV → String
+  | [] => ""
+  | v :: rest => showRV v ++ showRVs rest
+end
+
+def lnode (s : String) : Option (Nat × LObj) :=
+  match s.splitOn ":" with
+  | [n, "i"] => n.toNat?.map (·, .int)
+  | [n, "o"] => n.toNat?.map (·, .other)
+  | [n, "s"] => n.toNat?.map (·, .stream)
+  | [n, k] =>
+    match k.toList with
+    | 'r' :: r => do pure ((← n.toNat?), LObj.streamRef (← (String.ofList r).toNat?))
+    | _ => none
+  | _ => none
+
+def showL : Except LErr LKind → String
+  | .ok .int => "ok-int"
+  | .ok .other => "ok-other"
+  | .ok .stream => "ok-stream"
+  | .error .notFound => "notfound"
+  | .error .selfRef => "self"
+  | .error .tooDeep => "deep"
+  | .error .lengthType => "ltype"
+  | .error .fuel => "out-of-fuel"
+
+def listOf {α : Type} (f : String → Option α) (s : String) (sep : String) : Option (List α) :=
+  if s == "-" then some [] else (s.splitOn sep).mapM f
+
+def tok? (s : String) : Option (Option Int) :=
+  if s == "x" then some none else s.toInt?.map some
+
+def handleCore (op : String) (args : List String) : Option String :=
+  match op, args with
+  | "c02.readbytes", [n, avail] =>
+    match n.toInt?, avail.toNat? with
+    | some n, some a =>
+      some (match readBytes n a with
+        | .bad => "bad"
+        | .eof g => s!"eof {g}"
+        | .ok g => s!"ok {g}")
+    | _, _ => some "bad-op"
+  | "c02.load", [graph, calls] =>
+    match listOf lnode graph ";", listOf String.toNat? calls "," with
+    | some g, some cs =>
+      some (",".intercalate ((getObjectHist g [] cs).map (fun r => showL r.res)))
+    | _, _ => some "bad-op"
+  | "c02.ptree2", [declared, nodes] =>
+    match listOf pnode nodes ";" with
+    | some g =>
+      (match lookupL g 1 with
+       | none => some "bad-op"
+       | some root =>
+         let d : Option Int := if declared == "int" then some 0 else none
+         some (match pageCount g root d with
+           | some p => s!"ok {p}"
+           | none => "err"))
+    | none => some "bad-op"
+  | "c02.objstm", [n, first, len, toks, index] =>
+    match n.toInt?, first.toInt?, len.toNat?, listOf tok? toks ",", index.toInt? with
+    | some n, some first, some len, some toks, some index =>
+      some (match (objstmOpen n first len toks).bind (objstmSlice · index) with
+        | some (num, a, b) =>
+          -- the parser fails on an empty slice; the body is the digits 1..9 repeating
+          if a = b then "err" else s!"ok {num} {b - a} {(a - first.toNat) % 9 + 1}"
+        | none => "err")
+    | _, _, _, _, _ => some "bad-op"
+  | "c02.rdeep", [mode, lim, root, nodes] =>
+    match lim.toNat?, rvOf root, listOf rnode nodes ";" with
+    | some lim, some v, some g =>
+      let isReader := mode.startsWith "reader"
+      let countOnly := mode.endsWith "-count"
+      let m : RMode := if isReader then readerMode else resolverMode lim
+      let (r, st) := resolveDeepTop g m v
+      -- reader: the objects that entered the cache; resolver: the calls of ResolveReference
+      let cnt := if isReader then (st.fetched.filter (fun n => (lookupL g n).isSome)).length
+                 else st.fetched.length
+      some (match r with
+        | .ok x => if countOnly then s!"ok - {cnt}" else s!"ok {showRV x} {cnt}"
+        | .error .missing => s!"err-missing {cnt}"
+        | .error .tooDeep => s!"err-deep {cnt}"
+        | .error .circular => s!"err-circular {cnt}"
+        | .error .fuel => "out-of-fuel")
+    | _, _, _ => some "bad-op"
+  | _, _ => none
+
+end Core
+
+/-! ### stage 2: Model/BoundsData.lean -/
+section Data
+open Tabula.BoundsData
+
+def pairOf (sep : String) (s : String) : Option (Int × Int) :=
+  match s.splitOn sep with
+  | [a, b] => do pure ((← a.toInt?), (← b.toInt?))
+  | _ => none
+
+def pairNat (sep : String) (s : String) : Option (Int × Nat) :=
+  match s.splitOn sep with
+  | [a, b] => do pure ((← a.toInt?), (← b.toNat?))
+  | _ => none
+
+/-- prefix code of a colour-space value: `r<n>.` `n<id>.` `i<cs>` `c` `a<id>.` `o` -/
+def parseCS : Nat → List Char → Option (CS × List Char)
+  | 0, _ => none
+  | _ + 1, [] => none
+  | f + 1, c :: cs =>
+    if c = 'r' then let (n, rest) := readNum cs 0; some (.ref n, rest)
+    else if c = 'n' then let (n, rest) := readNum cs 0; some (.name n, rest)
+    else if c = 'a' then let (n, rest) := readNum cs 0; some (.arrName n, rest)
+    else if c = 'c' then some (.icc, cs)
+    else if c = 'o' then some (.other, cs)
+    else if c = 'i' then (parseCS f cs).map (fun (v, r) => (.indexed v, r))
+    else none
+
+def csOf (s : String) : Option CS :=
+  match parseCS (s.length + 1) s.toList with
+  | some (v, []) => some v
+  | _ => none
+
+def csNode (s : String) : Option (Nat × CS) :=
+  match s.splitOn "=" with
+  | [n, v] => do pure ((← n.toNat?), (← csOf v))
+  | _ => none
+
+def pline (s : String) : Option PLine :=
+  match s.splitOn "|" with
+  | [g, fs] => do pure ⟨(← g.toInt?), (← listOf (pairNat ":") fs ",")⟩
+  | _ => none
+
+def showRun (r : Nat × List (Nat × Nat)) : String :=
+  s!"{r.1}|" ++ (if r.2.isEmpty then "-" else ",".intercalate (r.2.map (fun p => s!"{p.1}:{p.2}")))
+
+def handleData (op : String) (args : List String) : Option String :=
+  match op, args with
+  | "c02.ccitt", [cols, rows, avail] =>
+    match cols.toInt?, rows.toInt?, avail.toNat? with
+    | some c, some r, some a =>
+      some (match (ccittDecode c r a).1 with
+        | .badParams => "bad"
+        | .tooLarge => "toolarge"
+        | .ok n => s!"ok {n}")
+    | _, _, _ => some "bad-op"
+  | "c02.gaps", [w, frags] =>
+    match w.toInt?, listOf (pairOf ":") frags "," with
+    | some w, some fs =>
+      let gs := findGaps w fs
+      some (if gs.isEmpty then "-" else ",".intercalate (gs.map (fun p => s!"{p.1}:{p.2}")))
+    | _, _ => some "bad-op"
+  | "c02.topng", [cs, bpc, w, h, len] =>
+    match bpc.toInt?, w.toInt?, h.toInt?, len.toNat? with
+    | some bpc, some w, some h, some len =>
+      let c : ImgCS := if cs == "rgb" then .rgb else if cs == "cmyk" then .cmyk else .gray
+      some (match toPNG c bpc w h len with
+        | .ok _ => "ok"
+        | .error .fit => "err-fit"
+        | .error .data => "err-data"
+        | .error .bpc => "err-bpc")
+    | _, _, _, _ => some "bad-op"
+  | "c02.jpeg", [w, h] =>
+    match w.toInt?, h.toInt? with
+    | some w, some h => some (if jpegFits w h then "pass" else "toolarge")
+    | _, _ => some "bad-op"
+  | "c02.cspace", [root, nodes] =>
+    match csOf root, listOf csNode nodes ";" with
+    | some v, some g =>
+      some (match parseColorSpace g v with
+        | some (id, _) => s!"name {id}"
+        | none => "out-of-fuel")
+    | _, _ => some "bad-op"
+  | "c02.layout", [lines] =>
+    match listOf pline lines ";" with
+    | some ls => some (";".intercalate ((preserveLayout ls true).map showRun))
+    | none => some "bad-op"
+  | "c02.contents", [lens] =>
+    match listOf String.toNat? lens "," with
+    | some ls => some (match concatContents ls 0 with
+        | some _ => "ok"
+        | none => "err")
+    | none => some "bad-op"
+  | _, _ => none
+
+end Data
+
+/-! ### stage 3: Model/BoundsOffice.lean -/
+section Office
+open Tabula.BoundsOffice
+
+def optInt? (s : String) : Option (Option Int) :=
+  if s == "x" then some none else s.toInt?.map some
+
+def hexNats (s : String) : Option (List Nat) := (unhex s).map (·.map UInt8.toNat)
+
+/-- prefix code of inline content: `l` leaf, `s` skipped element, `b…e` container -/
+def parseInl : Nat → List Char → List Inl → Option (List Inl × List Char)
+  | 0, _, _ => none
+  | _ + 1, [], acc => some (acc.reverse, [])
+  | f + 1, c :: cs, acc =>
+    if c = 'l' then parseInl f cs (.leaf :: acc)
+    else if c = 's' then parseInl f cs (.skip :: acc)
+    else if c = 'e' then some (acc.reverse, cs)
+    else if c = 'b' then
+      match parseInl f cs [] with
+      | none => none
+      | some (kids, rest) => parseInl f rest (.box kids :: acc)
+    else none
+
+def inlOf (s : String) : Option (List Inl) :=
+  if s == "-" then some [] else
+  match parseInl (s.length + 2) s.toList [] with
+  | some (v, []) => some v
+  | _ => none
+
+/-- `n` nested containers around one leaf, without building the string -/
+def nestInl : Nat → Inl → Inl
+  | 0, x => x
+  | n + 1, x => nestInl n (.box [x])
+
+/-- tree code: `(` opens a node, `)` closes it -/
+def parseHT : Nat → List Char → List HT → Option (List HT × List Char)
+  | 0, _, _ => none
+  | _ + 1, [], acc => some (acc.reverse, [])
+  | f + 1, c :: cs, acc =>
+    if c = ')' then some (acc.reverse, cs)
+    else if c = '(' then
+      match parseHT f cs [] with
+      | none => none
+      | some (kids, rest) => parseHT f rest (.node kids :: acc)
+    else none
+
+def htOf (s : String) : Option HT :=
+  match parseHT (s.length + 2) s.toList [] with
+  | some ([t], []) => some t
+  | _ => none
+
+def nestHTn : Nat → HT → HT
+  | 0, x => x
+  | n + 1, x => nestHTn n (.node [x])
+
+def regionOf (s : String) : Option Region :=
+  match s.splitOn ":" with
+  | [a, b, c, d] => do pure ⟨(← a.toNat?), (← b.toNat?), (← c.toInt?), (← d.toInt?)⟩
+  | _ => none
+
+def sheetOf (s : String) : Option SheetReq :=
+  match s.splitOn ":" with
+  | [a, b, c, d] => do pure ⟨(← a.toNat?), (← b.toNat?), (← c.toNat?), (← d.toNat?)⟩
+  | _ => none
+
+def pairNN (s : String) : Option (Nat × Nat) :=
+  match s.splitOn ":" with
+  | [a, b] => do pure ((← a.toNat?), (← b.toNat?))
+  | _ => none
+
+def rowOf (s : String) : Option (List (Nat × Nat)) :=
+  if s == "_" then some [] else (s.splitOn ",").mapM pairNN
+
+def showBools (bs : List Bool) : String := String.ofList (bs.map (fun b => if b then '1' else '0'))
+
+def showRows (rows : TRows) : String :=
+  if rows.isEmpty then "-" else
+  ";".intercalate (rows.map (fun r => if r.isEmpty then "_" else ",".intercalate (r.map (fun c => s!"{c.1}:{c.2}"))))
+
+def handleOffice (op : String) (args : List String) : Option String :=
+  match op, args with
+  | "c02.span", [v] =>
+    match optInt? v with
+    | some v => some s!"{acceptSpan v}"
+    | none => some "bad-op"
+  | "c02.ilvl", [h] =>
+    match hexNats h with
+    | some cs => some s!"{parseListLevel cs}"
+    | none => some "bad-op"
+  | "c02.lvl", [v] =>
+    match v.toInt? with
+    | some v => some s!"{clampLevel v}"
+    | none => some "bad-op"
+  | "c02.spaces", [v] =>
+    match optInt? v with
+    | some v => some s!"{spaceRun v}"
+    | none => some "bad-op"
+  | "c02.inline", [lim, nest, body] =>
+    match lim.toNat?, nest.toNat?, inlOf body with
+    | some lim, some nest, some kids =>
+      -- the generated content wrapped in `nest` further containers
+      let content := if nest = 0 then kids else [nestInl (nest - 1) (.box kids)]
+      some (match decodeParagraph lim content with
+        | some n => s!"ok {n}"
+        | none => "err")
+    | _, _, _ => some "bad-op"
+  | "c02.chain", [styles, id] =>
+    match listOf pairNN styles ",", id.toNat? with
+    | some st, some id =>
+      some (match styleChain st id with
+        | some ch => if ch.isEmpty then "-" else ",".intercalate (ch.map toString)
+        | none => "out-of-fuel")
+    | _, _ => some "bad-op"
+  | "c02.col", [h] =>
+    match hexNats h with
+    | some cs => some s!"{columnToIndex cs}"
+    | none => some "bad-op"
+  | "c02.merges", [maxRow, maxCol, regions] =>
+    match maxRow.toNat?, maxCol.toNat?, listOf regionOf regions "," with
+    | some r, some c, some rs => some (showBools (mergeAll r c rs).1)
+    | _, _, _ => some "bad-op"
+  | "c02.sheets", [reqs] =>
+    match listOf sheetOf reqs "," with
+    | some rs => some (showBools (loadSheets ⟨0, []⟩ rs))
+    | none => some "bad-op"
+  | "c02.tgrid", [rows] =>
+    match listOf rowOf rows ";" with
+    | some rs => some (showRows (limitTableGrid rs))
+    | none => some "bad-op"
+  | "c02.tree", [limit, nest, shape] =>
+    match limit.toNat?, nest.toNat?, htOf shape with
+    | some limit, some nest, some t =>
+      some (match treeDeeperThan (nestHTn nest t) limit with
+        | some true => "deeper"
+        | some false => "ok"
+        | none => "out-of-fuel")
+    | _, _, _ => some "bad-op"
+  | "c02.treeopen", [shape] =>
+    match htOf shape with
+    | some t =>
+      some (match treeRefused t with
+        | some true => "refused"
+        | some false => "ok"
+        | none => "out-of-fuel")
+    | none => some "bad-op"
+  | "c02.cmap4", [st, en] =>
+    match listOf String.toNat? st ",", listOf String.toNat? en "," with
+    | some st, some en =>
+      let (runs, w) := cmap4 st en
+      let sum := (runs.map (fun r => (r.1 + r.2) * (r.2 + 1 - r.1) / 2)).foldl (· + ·) 0
+      some s!"{w} {sum}"
+    | _, _ => some "bad-op"
+  | "c02.bfarr", [start, endc, n] =>
+    match start.toNat?, endc.toNat?, n.toNat? with
+    | some s, some e, some n =>
+      let codes := bfRangeArray s e n s
+      some s!"{codes.length} {codes.foldl (· + ·) 0}"
+    | _, _, _ => some "bad-op"
+  | _, _ => none
+
+end Office
+
 def handle (op : String) (args : List String) : String :=
+  match handleCore op args with
+  | some r => r
+  | none =>
+  match handleData op args with
+  | some r => r
+  | none =>
+  match handleOffice op args with
+  | some r => r
+  | none =>
   match op, args with
   | "c02.xrefstream", [w, idx, len] =>
     match ints? w, ints? idx, len.toNat? with
